@@ -237,16 +237,14 @@ func unterminatedBacktick(sql string) bool {
 		}
 		switch {
 		case c == '`':
-			// identifier, a doubled backtick doesn't end it
-			for i++; ; i++ {
+			// identifier: the tokenizer takes the character after the opening
+			// backtick as part of the name whatever it is (also a backtick),
+			// then reads up to the next backtick
+			for i += 2; ; i++ {
 				if i >= len(sql) {
 					return true
 				}
 				if sql[i] == '`' {
-					if i+1 < len(sql) && sql[i+1] == '`' {
-						i++
-						continue
-					}
 					break
 				}
 			}
